@@ -31,7 +31,8 @@ pub struct JsonGen {
 
 impl JsonGen {
     pub fn gen_top(&self, rng: &mut Rng) -> Value {
-        let n_defs = if rng.chance(1, 3) { 1 + rng.below(2) } else { 0 };
+        let many = rng.chance(1, 3);
+        let n_defs = if rng.chance(1, 3) { 1 + rng.below(if many { 4 } else { 2 }) } else { 0 };
         let g = JsonGen { n_defs, ..self.clone() };
         let mut root = g.gen(rng, self.max_depth);
         if n_defs > 0 {
@@ -59,6 +60,12 @@ impl JsonGen {
     }
 
     fn gen_def(&self, rng: &mut Rng, i: usize) -> Value {
+        // a definition that is only a reference to a LATER definition (d0 -> d1 -> ...): an alias chain, acyclic by
+        // construction (an unguarded cycle is undefined in JSON Schema and is never generated)
+        if i + 1 < self.n_defs && rng.chance(1, 2) {
+            let j = i + 1 + rng.below(self.n_defs - i - 1);
+            return json!({"$ref": format!("#/$defs/d{j}")});
+        }
         // object with a required scalar and an optional recursive member => finite instances exist
         match rng.below(3) {
             0 => json!({"type": "object", "properties": {"v": self.gen_scalar(rng), "next": {"$ref": format!("#/$defs/d{i}")}}, "required": ["v"], "additionalProperties": false}),
@@ -88,12 +95,34 @@ impl JsonGen {
             3..=5 => self.gen_object(rng, depth),
             6..=7 => self.gen_array(rng, depth),
             8 => {
+                if rng.chance(1, 4) {
+                    return self.gen_typed_anyof(rng, depth);
+                }
                 let n = 2 + rng.below(2);
                 json!({"anyOf": (0..n).map(|_| self.gen(rng, depth.saturating_sub(1))).collect::<Vec<_>>()})
             }
             9 => {
                 if self.n_defs > 0 {
-                    json!({"$ref": format!("#/$defs/d{}", rng.below(self.n_defs))})
+                    let r = format!("#/$defs/d{}", rng.below(self.n_defs));
+                    if rng.chance(1, 3) {
+                        // keywords next to $ref => intersection with the target (either keyword order; keywords for
+                        // other types than the target's are no-ops)
+                        let sib = self.bound_fragment(rng);
+                        let mut m = Map::new();
+                        let first = rng.chance(1, 2);
+                        if first {
+                            m.insert("$ref".into(), json!(r));
+                        }
+                        for (k, v) in sib.as_object().unwrap() {
+                            m.insert(k.clone(), v.clone());
+                        }
+                        if !first {
+                            m.insert("$ref".into(), json!(r));
+                        }
+                        Value::Object(m)
+                    } else {
+                        json!({"$ref": r})
+                    }
                 } else {
                     self.gen_leaf(rng)
                 }
@@ -321,7 +350,7 @@ impl JsonGen {
         o
     }
 
-    fn gen_object(&self, rng: &mut Rng, depth: u32) -> Value {
+    pub fn gen_object(&self, rng: &mut Rng, depth: u32) -> Value {
         let long = rng.chance(1, 6);
         let mut keys: Vec<&str> = if long { LONG_KEYS.to_vec() } else { KEYS.to_vec() };
         rng.shuffle(&mut keys);
@@ -357,6 +386,26 @@ impl JsonGen {
         if !self.subset && rng.chance(1, 8) {
             o["patternProperties"] = json!({"^z_": self.gen_leaf(rng)});
         }
+        if !self.subset && !long && rng.chance(1, 6) {
+            // patterns that match some of the declared names (a declared property then has to satisfy both
+            // schemas), sometimes with a declared optional property that is forbidden outright
+            let pats = ["^a", "^[ab]", "b$", "^(id|val)$", "_", "^.{1,2}$", "a"];
+            let mut pp = Map::new();
+            for _ in 0..1 + rng.below(2) {
+                pp.insert(rng.pick(&pats).to_string(), self.gen_scalar(rng));
+            }
+            o["patternProperties"] = Value::Object(pp);
+            if let Some(pr) = o.get_mut("properties").and_then(|p| p.as_object_mut()) {
+                let names: Vec<String> = pr.keys().cloned().collect();
+                for k in names {
+                    if !req.contains(&json!(k)) && rng.chance(1, 3) {
+                        pr.insert(k, json!(false));
+                    } else if rng.chance(1, 3) {
+                        pr.insert(k, self.gen_scalar(rng));
+                    }
+                }
+            }
+        }
         if !self.subset && req.len() == n && rng.chance(1, 4) && o.get("additionalProperties") != Some(&json!(false)) {
             let a = n + rng.below(2);
             o["minProperties"] = json!(a);
@@ -379,6 +428,86 @@ impl JsonGen {
                 {"type": "string", "minLength": rng.below(3)},
                 {"maxLength": 3 + rng.below(5), "pattern": *rng.pick(&["^[a-c]*$", "^[a-z0-9]+$", "b"])}
             ]}),
+        }
+    }
+
+    /// bounds without a type: `{"maxItems": 2}`, `{"minLength": 1, "maxLength": 3}`, `{"minimum": 0}` ...
+    fn bound_fragment(&self, rng: &mut Rng) -> Value {
+        match rng.below(6) {
+            0 => json!({"maxItems": 1 + rng.below(4)}),
+            1 => json!({"minItems": rng.below(3)}),
+            2 => json!({"minItems": rng.below(2), "maxItems": 2 + rng.below(3)}),
+            3 => json!({"maxLength": 1 + rng.below(6)}),
+            4 => json!({"minimum": rng.range(-30, 30)}),
+            _ => json!({"maximum": rng.range(-30, 90)}),
+        }
+    }
+
+    /// a typed schema with an anyOf of bound fragments next to it (tuple / string / integer), or a const / enum
+    /// next to type keywords: all of them compile through schema intersection
+    fn gen_typed_anyof(&self, rng: &mut Rng, depth: u32) -> Value {
+        match rng.below(4) {
+            0 => {
+                // tuple with a tail of another type than its head, lengths split by the anyOf
+                let heads = [json!({"type": "string", "maxLength": 3}), json!({"type": "boolean"}), json!({"type": "integer", "minimum": 0, "maximum": 9}), json!({"type": "null"})];
+                let np = 1 + rng.below(3);
+                let prefix: Vec<Value> = (0..np).map(|_| rng.pick(&heads).clone()).collect();
+                let tail = match rng.below(3) {
+                    0 => json!({"type": "integer", "minimum": 10, "maximum": 99}),
+                    1 => json!({"type": "string", "minLength": 4, "maxLength": 5}),
+                    _ => self.gen(rng, depth.saturating_sub(1)),
+                };
+                let mut m = Map::new();
+                let order = rng.below(3);
+                let any = json!([{"maxItems": rng.below(np + 1)}, {"minItems": np + rng.below(2), "maxItems": np + 1 + rng.below(3)}]);
+                if order == 0 {
+                    m.insert("anyOf".into(), any.clone());
+                }
+                m.insert("type".into(), json!("array"));
+                m.insert("prefixItems".into(), Value::Array(prefix));
+                if order == 1 {
+                    m.insert("anyOf".into(), any.clone());
+                }
+                m.insert("items".into(), tail);
+                if order == 2 {
+                    m.insert("anyOf".into(), any);
+                }
+                Value::Object(m)
+            }
+            1 => {
+                let a = rng.range(-40, 40);
+                json!({"type": "integer", "anyOf": [{"maximum": a}, {"minimum": a + rng.range(1, 30), "maximum": a + 60}]})
+            }
+            2 => {
+                let k = 1 + rng.below(3);
+                json!({"type": "string", "anyOf": [{"maxLength": k}, {"minLength": k + 2 + rng.below(2), "maxLength": k + 5}]})
+            }
+            _ => {
+                // const / enum of arrays next to type / items / prefixItems (either order)
+                let arr = |rng: &mut Rng| Value::Array((0..rng.below(4)).map(|_| json!(rng.range(0, 12))).collect());
+                let c = arr(rng);
+                let mut m = Map::new();
+                let first = rng.chance(1, 2);
+                let lit = if rng.chance(1, 2) { ("const", c) } else { ("enum", json!([c, arr(rng), [true, 1]])) };
+                if first {
+                    m.insert(lit.0.into(), lit.1.clone());
+                }
+                m.insert("type".into(), json!("array"));
+                match rng.below(3) {
+                    0 => {}
+                    1 => {
+                        m.insert("items".into(), json!({"type": "integer"}));
+                    }
+                    _ => {
+                        m.insert("prefixItems".into(), json!([{"type": "integer", "maximum": 11}]));
+                        m.insert("items".into(), json!({"type": "integer", "minimum": 1}));
+                    }
+                }
+                if !first {
+                    m.insert(lit.0.into(), lit.1);
+                }
+                Value::Object(m)
+            }
         }
     }
 
@@ -425,6 +554,14 @@ fn rand_string(rng: &mut Rng, min: usize, max: usize) -> String {
 }
 
 impl<'a> InstGen<'a> {
+    fn valid_for(&self, s: &Value, v: &Value) -> bool {
+        let text = serde_json::to_string(v).unwrap_or_default();
+        match crate::ref_json::JParser::parse(text.as_bytes()) {
+            Ok(j) => matches!(crate::ref_json::Validator::new(self.root).validate(s, &j), crate::ref_json::Verdict::Valid),
+            Err(_) => false,
+        }
+    }
+
     /// constructive instance for the subset schemas; None when the generator does not know how
     pub fn gen(&mut self, rng: &mut Rng, s: &Value, depth: u32) -> Option<Value> {
         if self.budget == 0 {
@@ -437,22 +574,60 @@ impl<'a> InstGen<'a> {
             Value::Object(o) => o,
             _ => return None,
         };
+        let n_meta = o.contains_key("$defs") as usize + o.contains_key("x-guidance") as usize;
         if let Some(r) = o.get("$ref").and_then(|r| r.as_str()) {
             let t = self.root.pointer(r.strip_prefix('#')?)?;
+            if o.len() > 1 + n_meta {
+                // sibling keywords: candidates from the target, kept when the whole schema accepts them
+                for _ in 0..6 {
+                    if let Some(v) = self.gen(rng, t, depth + 1) {
+                        if self.valid_for(s, &v) {
+                            return Some(v);
+                        }
+                    }
+                }
+                return None;
+            }
             return self.gen(rng, t, depth + 1);
         }
         if let Some(c) = o.get("const") {
+            if o.len() > 1 + n_meta && !self.valid_for(s, c) {
+                return None;
+            }
             return Some(c.clone());
         }
         if let Some(e) = o.get("enum").and_then(|e| e.as_array()) {
             if e.is_empty() {
                 return None;
             }
+            if o.len() > 1 + n_meta {
+                let ok: Vec<&Value> = e.iter().filter(|v| self.valid_for(s, v)).collect();
+                if ok.is_empty() {
+                    return None;
+                }
+                return Some((*rng.pick(&ok)).clone());
+            }
             return Some(rng.pick(e).clone());
         }
         if let Some(a) = o.get("anyOf").and_then(|e| e.as_array()) {
-            if o.len() > 1 + o.contains_key("$defs") as usize + o.contains_key("x-guidance") as usize {
-                return None; // sibling keywords: not constructive
+            if o.len() > 1 + n_meta {
+                // sibling keywords: candidates from the schema without its anyOf, kept when the whole schema accepts
+                // them (only for typed scalars / arrays: key order of intersected objects is not defined by the property)
+                let ty = o.get("type").and_then(|t| t.as_str()).unwrap_or("");
+                if !matches!(ty, "array" | "integer" | "string") {
+                    return None;
+                }
+                let mut base = o.clone();
+                base.remove("anyOf");
+                let base = Value::Object(base);
+                for _ in 0..8 {
+                    if let Some(v) = self.gen(rng, &base, depth + 1) {
+                        if self.valid_for(s, &v) {
+                            return Some(v);
+                        }
+                    }
+                }
+                return None;
             }
             for _ in 0..4 {
                 let br = rng.pick(a).clone();
